@@ -46,7 +46,19 @@ fn main() {
     if args.get(2).map(|s| s.as_str()) == Some("--replay") {
         let path = args.get(3).cloned().unwrap_or_default();
         let code = match prop {
-            "C01" | "C02" | "C03" | "C04" | "C05" | "C09" | "C10" | "C19" => protochecks::replay(prop, &path),
+            "C01" | "C02" | "C03" | "C04" | "C05" | "C09" | "C10" | "C19" | "C06" | "C07" | "C13" => {
+                let v: Option<serde_json::Value> = std::fs::read(&path).ok().and_then(|d| serde_json::from_slice(&d).ok());
+                match v {
+                    Some(v) if v["replay"]["engine"] == "sim" => {
+                        let code = sim_checks::replay(prop, &v);
+                        if code == 1 {
+                            println!("VIOLATION property={} replay={}", prop, path);
+                        }
+                        code
+                    }
+                    _ => protochecks::replay(prop, &path),
+                }
+            }
             "C08" | "C14" | "C15" | "C16" => {
                 let v: serde_json::Value = match std::fs::read(&path).ok().and_then(|d| serde_json::from_slice(&d).ok()) {
                     Some(v) => v,
